@@ -38,6 +38,25 @@ CLAIMED = {
             SCRIPT_NOTE + "Partial: debug-log text is not modelled.", "DESIGN.md 4/C18"),
 }
 
+
+TOBS_NOTE = ("Trusted: Coq kernel (vm_compute for the finite-domain theorems), the T-obs dumper harness/cmd/gvgen, which executes the real code on the WHOLE "
+             "finite domain on every run and writes coq/Gen/Obs.v (default + every differing entry; the theorems are then closed over the complete table). ")
+
+CLAIMED.update({
+    "C12": ("Coq theorem closed by computation over the complete regenerated observation of GetRegisterListByProduct (all 65536 ids, three passes) and the family lists",
+            "C12_by_class: for all 65536 ids the observed (error, list) equals the list the product's class prescribes (class and exclusions written from the property text, independent of the code's type switch), lists are well formed (unique names and addresses, non-zero factors, known decoders), unsupported and unknown ids get ErrUnsupportedType and an empty list. The table is regenerated from /repo on every run; a history-dependent result (second/third pass differs) is part of the theorem.",
+            TOBS_NOTE, "DESIGN.md 4/C12"),
+    "C13": ("Coq theorem closed by computation over the complete regenerated observation of every product accessor (65536 ids, 256 types)",
+            "C13_coherent / C13_types / C13_table_wellformed: existence, model, type, display string and string map agree for all 65536 ids; exactly one category consistent with the id range; panel ratings equal the numbers parsed (by a Coq parser) from the model designation; Phoenix model strings agree with the id digits; all 256 type values have a name iff they are one of the ten types and the predicates are disjoint.",
+            TOBS_NOTE, "DESIGN.md 4/C13"),
+    "C14": ("Coq theorem for every integer over the model NewEnum + complete observation of the typed constructors (256 bytes) and sampled observation of NewEnum (141 001 + 6 000 ints) for all 20 factories",
+            "C14_new_enum: for every factory and EVERY integer v, construction succeeds iff v is a key of the index-to-name map, with index v and the mapped non-empty name. C14_observed ties the model to the code: New on all 256 bytes and NewEnum on [-70000,70000] and around every power-of-two boundary behave exactly as the model says, failures match ErrInvalidEnumIdx; the factory list is checked against a scan of /repo/veconst.",
+            TOBS_NOTE + "NewEnum's int domain is sampled, not enumerated.", "DESIGN.md 4/C14"),
+    "C15": ("Coq theorems (field set = documented bits for every raw value; rendering judged over all bit vectors, lifted to every raw value) + correspondence through factory and register API",
+            "C15_fields and C15_render are proved for every raw value (the rendering part by complete enumeration of the bit vectors of the documented fields, lifted by a lemma). The implementation's Fields() is compared with the model on all combinations of documented bits x settings of the other bits (incl. bits >= 32) and all 65536 values of the 16-bit type; renderings obtained through the register API are produced 65 times each and judged by render_ok.",
+            TOBS_NOTE + "Map iteration order is runtime behaviour: determinism is exercised (65 repetitions), the model is a function.", "DESIGN.md 4/C15"),
+})
+
 PENDING_REASON = "check not built yet in this session (work in progress; see DESIGN.md section 10)"
 
 
